@@ -7,6 +7,7 @@ package verifhooks
 
 import (
 	"github.com/corazawaf/coraza/v3/experimental/plugins/plugintypes"
+	"github.com/corazawaf/coraza/v3/internal/memoize"
 	"github.com/corazawaf/coraza/v3/internal/operators"
 	"github.com/corazawaf/coraza/v3/internal/transformations"
 )
@@ -19,4 +20,9 @@ func Transformation(name string) (plugintypes.Transformation, error) {
 // Operator builds the registered operator with the given name.
 func Operator(name string, opts plugintypes.OperatorOptions) (plugintypes.Operator, error) {
 	return operators.Get(name, opts)
+}
+
+// MemoizeKeys lists the live entries of the process-wide pattern cache.
+func MemoizeKeys() []string {
+	return memoize.VerifKeys()
 }
